@@ -31,14 +31,14 @@ def any_cfg(cfg): return True
 
 # families -> (generator name, leak_free?)  leak_free: at the end of the case nothing may be alive
 PROPS = {
-    "C01": dict(families=["elem", "copy", "iter_nth", "userlazy", "random"], keys=["out", "ret", "len", "snap"], cfgs=any_cfg,
+    "C01": dict(families=["elem", "copy", "iter_nth", "userlazy", "handleswap", "random"], keys=["out", "ret", "len", "snap"], cfgs=any_cfg,
                 release=False, leak_free=True),
     "C02": dict(families=["range", "range_nth", "random"], keys=["out", "ret", "len", "snap"], cfgs=any_cfg,
                 release=True, leak_free=True),
     "C03": dict(families=["elem", "range", "range_nth", "clone", "lazyfuse", "dropfuse", "liar", "random"], keys=["ev_user", "snap"], cfgs=any_cfg,
                 release=False, leak_free=True),
     "C04": dict(families=["types"], keys=["out", "ret", "len", "snap", "ev_user"], cfgs=any_cfg, release=False, leak_free=False),
-    "C13": dict(families=["handles", "elem", "iter_nth"], keys=["out", "ret", "len", "snap", "ev_user"], cfgs=any_cfg, release=False, leak_free=True),
+    "C13": dict(families=["handles", "elem", "iter_nth", "placement"], keys=["out", "ret", "len", "snap", "ev_user"], cfgs=any_cfg, release=False, leak_free=True),
     "C17": dict(families=["parts"], keys=["out", "ret", "len", "cap", "snap", "ev_user", "ev_alloc"],
                 cfgs=lambda c: c["be"] in ("heap", "empty"), release=False, leak_free=True),
     "C05": dict(families=["elem", "range", "clone", "clonefuse", "dropfuse", "capacity", "random"], keys=["out", "ev_backend", "snap", "raw"],
@@ -54,7 +54,7 @@ PROPS = {
                 release=False, leak_free=True),
     "C10": dict(families=["capacity", "liar", "random"], keys=["out", "len", "cap", "snap"], cfgs=is_resizable,
                 release=True, leak_free=True),
-    "C11": dict(families=["elem", "range", "clone", "views", "clone_in"], keys=["out", "ret", "len", "cap", "snap", "ev_alloc"],
+    "C11": dict(families=["elem", "range", "clone", "views", "clone_in", "stackcap"], keys=["out", "ret", "len", "cap", "snap", "ev_alloc"],
                 cfgs=is_stack, release=False, leak_free=True),
     "C12": dict(families=["views", "placement"], keys=["out", "ret", "len", "snap"], cfgs=any_cfg, release=False, leak_free=True),
     "C14": dict(families=["iter", "iter_clone", "iter_nth", "range_nth", "cursor_max"], keys=["out", "ret"], cfgs=any_cfg, release=False, leak_free=True),
@@ -119,6 +119,10 @@ def compare_case(pid, spec, cid, cfg, steps, family, mlines, ilines):
             return dict(step=i, key="model-missing", expected="<no model line>", observed=il["_raw"])
         ml = msteps[i]
         for k in spec["keys"]:
+            # the residue of the storage address that the placement probe returns is the subject of C12 (alignment,
+            # known finding D7); C13 runs the probe for its byte-level coherence monitors only
+            if k == "ret" and pid != "C12" and i < len(steps) and op_word(steps[i]) == "placement":
+                continue
             e, o = PROJ[k](ml), PROJ[k](il)
             if e != o:
                 return dict(step=i, key=k, expected=e, observed=o)
@@ -329,7 +333,7 @@ def collect_cases(pid, spec, routing, tier, seed):
                     continue
                 # inline stack buffers are only byte-aligned (known finding D7): typed access to an
                 # over-aligned element type there would abort the harness; only the placement probe runs
-                if is_stack(cfg) and cfg["al"] > 8 and fam != "placement":
+                if is_stack(cfg) and cfg["al"] > 8 and fam not in ("placement", "stackcap"):
                     continue
                 if trap == 0 and fam not in ("range", "capacity"):
                     continue
